@@ -316,6 +316,10 @@ def stdApplyAct (s : SState) (fh fw : List Nat) : Act → SState
     match nthMod fh k with
     | some o => let s1 := s.incStrong o; { s1 with roots := s1.roots ++ [o] }
     | none => s
+  | .downgradeField k =>
+    match nthMod fh k with
+    | some o => let s1 := s.incWeak o; { s1 with wroots := s1.wroots ++ [o] }
+    | none => s
 
 /-- one machine step -/
 def stdStep (s : SState) : SState :=
